@@ -486,6 +486,56 @@ Fixpoint property_requests_comp (c : ir_component) {struct c} : list (N * string
   end.
 Definition property_requests (q : ir_query) : list (N * string) := property_requests_comp (q_comp q).
 
+(* ---- the two known classes (F11), as boolean predicates on the query ---- *)
+Fixpoint folds_with_parent (c : ir_component) {struct c} : list (list ir_vertex * fold_hdr) :=
+  match c with
+  | mkComp _ vs ss _ =>
+      (fix go (ss : list step) : list (list ir_vertex * fold_hdr) :=
+         match ss with
+         | [] => []
+         | SEdge _ :: r => go r
+         | SFold h sub :: r => (vs, h) :: folds_with_parent sub ++ go r
+         end) ss
+  end.
+
+Definition unlisted (q : ir_query) (r : N * string) : bool := negb (mem_str (snd r) (required_of q (fst r))).
+
+(* K-imported-tag-not-required: some @fold imports a context-field tag whose property
+   required_properties does not list at the tagged vertex *)
+Definition k_imported_tag_not_required (q : ir_query) : bool :=
+  existsb (fun ph => existsb (unlisted q) (import_requests (snd ph))) (folds_with_parent (q_comp q)).
+
+(* K-count-filter-tag-not-required: some fold-count filter has a tag operand (a vertex of the fold's
+   parent component) whose property required_properties does not list at the tagged vertex *)
+Definition k_count_filter_tag_not_required (q : ir_query) : bool :=
+  existsb (fun ph => existsb (unlisted q) (flat_map (fun pf => tag_request (fst ph) (pf_arg pf)) (fo_post (snd ph))))
+          (folds_with_parent (q_comp q)).
+
+
+(* ---- the known classes of C04 ---- *)
+Fixpoint all_vertices (c : ir_component) {struct c} : list ir_vertex :=
+  match c with
+  | mkComp _ vs ss _ =>
+      vs ++ (fix go (ss : list step) : list ir_vertex :=
+               match ss with
+               | [] => []
+               | SEdge _ :: r => go r
+               | SFold _ sub :: r => all_vertices sub ++ go r
+               end) ss
+  end.
+
+(* K-ge-tag-hint (F10): some vertex filter is `>=` against a tag (context-field or fold-count): the
+   dynamic hint built from it is an UPPER bound *)
+Definition ge_tag_filter (f : vfilter) : bool :=
+  opk_eqb (vf_op f) GreaterThanOrEqual && match vf_arg f with Some (ATag _) => true | _ => false end.
+Definition k_ge_tag_hint (q : ir_query) : bool :=
+  existsb (fun v => existsb ge_tag_filter (v_filters v)) (all_vertices (q_comp q)).
+
+(* K-null-tag-hint (F17): the tag value a dynamic hint is resolved with is null and the chosen
+   operator bounds a range with it (<, <=, >, >=) or reads it as a list (one_of) *)
+Definition k_null_tag_hint (op : opk) (w : fv) : bool :=
+  fv_is_null w && (is_cmp_op op || opk_eqb op OneOf).
+
 (* ====================================================================================== *)
 (* Rendering of hints (mirrored by harness/src/bin/tfh_hints.rs)                            *)
 (* ====================================================================================== *)
@@ -782,6 +832,43 @@ Fixpoint lazy_vids (c : ir_component) {struct c} : list N :=
 
 Definition memN' (x : N) (l : list N) : bool := existsb (N.eqb x) l.
 
+(* ---- well-formedness facts about compiled queries used below (DESIGN.md A.4 #4 and #8) ---- *)
+Fixpoint outputs_local (c : ir_component) {struct c} : bool :=
+  match c with
+  | mkComp _ vs ss outs =>
+      forallb (fun o => match find_vertex vs (cf_vid (snd o)) with Some _ => true | None => false end) outs
+      && (fix go (ss : list step) : bool :=
+            match ss with
+            | [] => true
+            | SEdge _ :: r => go r
+            | SFold _ sub :: r => outputs_local sub && go r
+            end) ss
+  end.
+
+Fixpoint nodupN (l : list N) : bool :=
+  match l with
+  | [] => true
+  | x :: r => negb (memN' x r) && nodupN r
+  end.
+
+Fixpoint fold_roots_ok (c : ir_component) {struct c} : bool :=
+  match c with
+  | mkComp _ _ ss _ =>
+      (fix go (ss : list step) : bool :=
+         match ss with
+         | [] => true
+         | SEdge _ :: r => go r
+         | SFold h sub :: r => N.eqb (fo_to h) (c_root sub) && fold_roots_ok sub && go r
+         end) ss
+  end.
+
+(* the boolean form, evaluated on every generated query by the correspondence run: vids are unique
+   (A.4 #4), outputs name vertices of their own component (#8), a fold's to_vid is the root of its
+   component (#1) *)
+Definition wf_hints_query (q : ir_query) : bool :=
+  nodupN (all_vids (q_comp q)) && outputs_local (q_comp q) && fold_roots_ok (q_comp q).
+
+
 (* insertion sort of (N * string) pairs, duplicates removed *)
 Definition pair_le (a b : N * string) : bool :=
   match N.compare (fst a) (fst b) with
@@ -848,7 +935,8 @@ Definition run_c05 (re : string -> string -> option bool) (d : dataset) (rq : ra
           ("REQ:" ++ show_required q seen ++
            "@CALLS:" ++ show_pairs (sort_pairs (filter (fun p => negb (memN' (fst p) lz)) reqs)) ++
            "@SUP:" ++ show_bool (pair_subset reqs (property_requests q)) ++
-           "@OBS:" ++ show_bool (pair_subset observed (property_requests q)))%string
+           "@OBS:" ++ show_bool (pair_subset observed (property_requests q)) ++
+           "@WF:" ++ show_bool (wf_hints_query q))%string
       end
   end.
 
